@@ -257,19 +257,22 @@ VARIABLES
   busy,      \* keys with an attempt (task) in flight that only a cancellation ends
   failq,     \* environment: users to whom a queue request cannot be delivered at the moment
   held,      \* downloads whose queue request failed in this life (and was not delivered since)
+  told,      \* the state-change reports made during the last step: set of [l, t, cur] = the listener
+             \* attached for transfer l (in the current life iff cur) was told about a change of transfer t
   act,       \* kind of the last step: "Init" | "Other" | "Write" | "OldWrite" | "Restart" | "Cycle"
   nops, lives
 
-vars == <<mem, db, proc, lastW, started, cycleReq, wired, picked, busy, failq, held, act, nops, lives>>
+vars == <<mem, db, proc, lastW, started, cycleReq, wired, picked, busy, failq, held, told, act, nops, lives>>
 
 Init ==
   /\ mem \in UNION {Mems(S) : S \in {X \in SUBSET Keys : Cardinality(X) <= MaxInit}}
   /\ db = EmptyDb /\ proc = "running" /\ lastW = Empty
   /\ started = FALSE /\ cycleReq = (DOMAIN mem # {}) /\ wired = DOMAIN mem /\ picked = {} /\ busy = {}
   /\ failq \in (IF PeerFaults /\ Downs(mem) # {} THEN {{}, {k[1] : k \in Downs(mem)}} ELSE {{}})
-  /\ held = {}
+  /\ held = {} /\ told = {}
   /\ act = "Init" /\ nops = 0 /\ lives = 0
 
+Own(k) == [l |-> k, t |-> k, cur |-> TRUE]
 Running == proc = "running" /\ nops < MaxOps
 \* Between two API calls the event loop is idle: when the management task runs, a requested
 \* cycle happens before the next call.
@@ -282,7 +285,7 @@ AddTo(k, m2) ==
   /\ DOMAIN m2 = DOMAIN mem \cup {k} /\ m2[k].k = k
   /\ \A x \in DOMAIN mem : m2[x] = mem[x]
   /\ mem' = m2 /\ wired' = wired \cup {k} /\ cycleReq' = TRUE
-  /\ act' = "Other" /\ Tick
+  /\ act' = "Other" /\ told' = {} /\ Tick
   /\ UNCHANGED <<db, proc, lastW, started, picked, busy, failq, held, lives>>
 Add(k) == Cardinality(DOMAIN mem) < MaxPresent /\ AddTo(k, mem @@ (k :> Virgin(k)))
 
@@ -294,6 +297,7 @@ MutateTo(k, o, r2) ==
   /\ mem' = [mem EXCEPT ![k] = r2]
   /\ cycleReq' = (cycleReq \/ k \in wired)
   /\ busy' = IF Base(o) \in {"abort", "pause"} THEN busy \ {k} ELSE busy    \* these cancel the tasks
+  /\ told' = (IF k \in wired THEN {Own(k)} ELSE {})        \* Transfer.transition tells the listeners
   /\ act' = "Other" /\ Tick
   /\ UNCHANGED <<db, proc, lastW, started, wired, picked, failq, held, lives>>
 Mutate(k, o) == k \in DOMAIN mem /\ MutateTo(k, o, Effect(mem[k], o))
@@ -303,7 +307,7 @@ SetDataTo(k, r2) ==
   /\ r2 = [mem[k] EXCEPT !.lp = r2.lp, !.fs = r2.fs, !.bt = r2.bt]
   /\ r2 # mem[k]
   /\ mem' = [mem EXCEPT ![k] = r2]
-  /\ act' = "Other" /\ Tick
+  /\ act' = "Other" /\ told' = {} /\ Tick
   /\ UNCHANGED <<db, proc, lastW, started, cycleReq, wired, picked, busy, failq, held, lives>>
 SetData(k, v) == k \in DOMAIN mem /\ mem[k].st \in InProgress /\ SetDataTo(k, Data(mem[k], v))
 
@@ -312,6 +316,7 @@ Remove(k) ==
   /\ Running /\ Free /\ k \in DOMAIN mem
   /\ mem' = Restrict(mem, DOMAIN mem \ {k})
   /\ wired' = wired \ {k} /\ cycleReq' = TRUE /\ busy' = busy \ {k} /\ held' = held \ {k}
+  /\ told' = (IF k \in wired /\ CanDo(mem[k], "abort") THEN {Own(k)} ELSE {})   \* remove() aborts first
   /\ act' = "Other" /\ Tick
   /\ UNCHANGED <<db, proc, lastW, started, picked, failq, lives>>
 
@@ -319,7 +324,7 @@ Remove(k) ==
 Write ==
   /\ Running /\ Free
   /\ db' \in WriteRes(db, mem) /\ lastW' = mem
-  /\ act' = "Write" /\ Tick
+  /\ act' = "Write" /\ told' = {} /\ Tick
   /\ UNCHANGED <<mem, proc, started, cycleReq, wired, picked, busy, failq, held, lives>>
 
 Dies == proc' = "dead" /\ mem' = Empty /\ started' = FALSE /\ cycleReq' = FALSE /\ wired' = {} /\ busy' = {}
@@ -329,21 +334,21 @@ Dies == proc' = "dead" /\ mem' = Empty /\ started' = FALSE /\ cycleReq' = FALSE 
 StopWriteOf(m) ==
   /\ Running /\ Free
   /\ db' \in WriteRes(db, m) /\ lastW' = m
-  /\ Dies /\ act' = "Write" /\ Tick
+  /\ Dies /\ act' = "Write" /\ told' = {} /\ Tick
   /\ UNCHANGED <<picked, lives>>
 StopWrite == proc = "running" /\ StopWriteOf(mem)
 
 \* the process ends without writing
 Crash ==
   /\ Running /\ Free
-  /\ Dies /\ act' = "Other" /\ Tick
+  /\ Dies /\ act' = "Other" /\ told' = {} /\ Tick
   /\ UNCHANGED <<db, lastW, picked, lives>>
 
 \* the whole first life was run by an older release, which wrote the file on exit
 OldVersionWrite(fmt) ==
   /\ OldVersions /\ Running /\ ~started /\ lives = 0 /\ db = EmptyDb /\ lastW = Empty
   /\ db' \in OldWriteRes(mem, fmt) /\ lastW' = ByKey(RecsOf(db'))
-  /\ Dies /\ act' = "OldWrite" /\ Tick
+  /\ Dies /\ act' = "OldWrite" /\ told' = {} /\ Tick
   /\ UNCHANGED <<picked, lives>>
 
 \* a new client: load_data() = read_cache() over the same directory
@@ -352,14 +357,14 @@ RestartTo(m2) ==
   /\ mem' = m2 /\ proc' = "running"
   /\ wired' = DOMAIN m2 /\ cycleReq' = (DOMAIN m2 # {})
   /\ picked' = {} /\ lives' = lives + 1
-  /\ act' = "Restart" /\ Tick
+  /\ act' = "Restart" /\ told' = {} /\ Tick
   /\ UNCHANGED <<db, lastW, started, busy, failq, held>>
 Restart == proc = "dead" /\ \E m2 \in LoadRes(db) : RestartTo(m2)
 
 \* manager.start()
 StartMgr ==
   /\ Running /\ ~started
-  /\ started' = TRUE /\ act' = "Other" /\ Tick
+  /\ started' = TRUE /\ act' = "Other" /\ told' = {} /\ Tick
   /\ UNCHANGED <<mem, db, proc, lastW, cycleReq, wired, picked, busy, failq, held, lives>>
 
 \* as in client.start(): right after load_data() (or first thing in a fresh client); a life in
@@ -367,12 +372,13 @@ StartMgr ==
 StartEarly == act \in {"Init", "Restart"} /\ StartMgr
 
 \* _management_job -> manage_transfers (and the immediate consequences of what it starts)
-CycleTo(P, m2) ==
+CycleTo(P, m2, T) ==
   /\ Running /\ started /\ cycleReq
   /\ DOMAIN m2 = DOMAIN mem
   /\ mem' = m2 /\ picked' = P /\ cycleReq' = FALSE
   /\ busy' = busy \cup {k \in P : ~IsDown(k)}      \* the peer does not answer: the attempt stays in flight
   /\ held' = (held \ {k \in P : IsDown(k) /\ k[1] \notin failq}) \cup {k \in P : IsDown(k) /\ k[1] \in failq}
+  /\ told' = T
   /\ act' = "Cycle" /\ Tick
   /\ UNCHANGED <<db, proc, lastW, started, wired, failq, lives>>
 \* the code (manage_transfers) does not start a second attempt while one is in flight
@@ -380,16 +386,17 @@ CycleTo(P, m2) ==
 Cycle == cycleReq /\ \E P \in PickSets(mem, busy, held) :
             /\ P \cap busy = {} /\ EligDown(mem) \subseteq P
             /\ \A k1, k2 \in P : (~IsDown(k1) /\ ~IsDown(k2) /\ k1[1] = k2[1]) => k1 = k2
-            /\ CycleTo(P, CycleEffect(mem, P, failq))
+            /\ LET m2 == CycleEffect(mem, P, failq)
+               IN CycleTo(P, m2, {Own(k) : k \in {x \in DOMAIN mem : m2[x].st # mem[x].st}})
 
 \* environment: a peer becomes (un)reachable for queue requests
 PeerDown(u) ==
   /\ nops < MaxOps /\ Free /\ u \notin failq
-  /\ failq' = failq \cup {u} /\ act' = "Other" /\ Tick
+  /\ failq' = failq \cup {u} /\ act' = "Other" /\ told' = {} /\ Tick
   /\ UNCHANGED <<mem, db, proc, lastW, started, cycleReq, wired, picked, busy, held, lives>>
 PeerUp(u) ==
   /\ nops < MaxOps /\ Free /\ u \in failq
-  /\ failq' = failq \ {u} /\ act' = "Other" /\ Tick
+  /\ failq' = failq \ {u} /\ act' = "Other" /\ told' = {} /\ Tick
   /\ UNCHANGED <<mem, db, proc, lastW, started, cycleReq, wired, picked, busy, held, lives>>
 
 EnvDown(u) == PeerToggles /\ PeerDown(u)
@@ -464,5 +471,14 @@ LoadedLikeFreshA ==
   /\ act' = "Restart" => wired' = DOMAIN mem' /\ (DOMAIN mem' # {} => cycleReq')
   /\ act' = "Cycle" => picked' \in PickSets(mem, busy, held)
 LoadedLikeFresh == [][LoadedLikeFreshA]_vars
+
+\* state changes are reported: a change of a transfer is told to the listeners of that transfer -
+\* of the running client - and to nobody else, and every change of a listened-to transfer is told
+ReportsToOwnListenersA ==
+  /\ \A r \in told' : r.l = r.t /\ r.cur
+  /\ (proc = "running" /\ proc' = "running" /\ act' \in {"Other", "Cycle"}) =>
+        \A k \in DOMAIN mem \cap DOMAIN mem' :
+           (mem[k].st # mem'[k].st /\ k \in wired) => Own(k) \in told'
+ReportsToOwnListeners == [][ReportsToOwnListenersA]_vars
 WiredAll == proc = "running" => wired = DOMAIN mem
 =============================================================================
